@@ -12,8 +12,20 @@
 (* A REFERENCE is [to, mag, refl, rot, origin, rep]; a CELL is             *)
 (* [name, shapes, refs]; a hierarchy is a function name -> cell.           *)
 (***************************************************************************)
-EXTENDS Repetition
+EXTENDS Repetition, Bits
 
+\* sign of a*b - c*d without leaving 31 bits: small operands directly, large ones through Bits
+SignOfDiffOfProducts(a, b, c, d) ==
+    IF Abs(a) < 32768 /\ Abs(b) < 32768 /\ Abs(c) < 32768 /\ Abs(d) < 32768
+    THEN Sign(a * b - c * d)
+    ELSE LET s1 == Sign(a) * Sign(b)
+             s2 == Sign(c) * Sign(d)
+             m1 == BMul(FromInt(Abs(a)), FromInt(Abs(b)))
+             m2 == BMul(FromInt(Abs(c)), FromInt(Abs(d)))
+         IN  IF s1 # s2 THEN (IF s1 > s2 THEN 1 ELSE -1)
+             ELSE IF s1 = 0 THEN 0
+             ELSE s1 * BCmp(m1, m2)
+SCross3(a, b, c) == SignOfDiffOfProducts(b[1] - a[1], c[2] - a[2], b[2] - a[2], c[1] - a[1])
 SetToSeqH(S) == CHOOSE q \in [1..Cardinality(S) -> S] : \A i, j \in 1..Cardinality(S) : i # j => q[i] # q[j]
 \* ---- rings up to rotation and orientation -----------------------------------
 RingAt(r, k, dir, i) == LET n == Len(r)
@@ -96,11 +108,13 @@ MapShape(m, shape) ==
 \* vertices lying on the segment between their neighbours do not change the outline (the path
 \* code samples straight sections at a density that depends on scale)
 PrevIdx(P, i) == IF i = 1 THEN Len(P) ELSE i - 1
+\* u . v > 0 for collinear u, v: same direction
+SDotPos(u, v) == (Sign(u[1]) * Sign(v[1]) > 0) \/ (Sign(u[2]) * Sign(v[2]) > 0)
 SimplifyRing(r) ==
     IF Len(r) < 3 THEN r
     ELSE LET keep == {i \in DOMAIN r :
-                        ~(Cross3(r[PrevIdx(r, i)], r[i], r[NextIdx(r, i)]) = 0
-                          /\ Dot(VSub(r[i], r[PrevIdx(r, i)]), VSub(r[NextIdx(r, i)], r[i])) > 0)}
+                        ~(SCross3(r[PrevIdx(r, i)], r[i], r[NextIdx(r, i)]) = 0
+                          /\ SDotPos(VSub(r[i], r[PrevIdx(r, i)]), VSub(r[NextIdx(r, i)], r[i])))}
          IN  IF keep = {} THEN r
              ELSE LET idx == SortSeq(SetToSeqH(keep), LAMBDA a, b : a < b) IN [k \in DOMAIN idx |-> r[idx[k]]]
 CanonParts(parts) == [i \in DOMAIN parts |-> [tag |-> parts[i].tag, ring |-> Canon(SimplifyRing(parts[i].ring))]]
@@ -132,9 +146,11 @@ AllPoints(parts) == UNION {SeqSet(parts[i].ring) : i \in DOMAIN parts}
 OnOrInsideConvex(H, q) ==
     \/ Len(H) = 0 /\ FALSE
     \/ Len(H) = 1 /\ q = H[1]
-    \/ Len(H) = 2 /\ OnSegment(H[1], H[2], q)
-    \/ Len(H) >= 3 /\ ((\A i \in DOMAIN H : Cross3(H[i], H[NextIdx(H, i)], q) >= 0)
-                       \/ (\A j \in DOMAIN H : Cross3(H[j], H[NextIdx(H, j)], q) <= 0))
+    \/ Len(H) = 2 /\ SCross3(H[1], H[2], q) = 0
+                    /\ Min2(H[1][1], H[2][1]) <= q[1] /\ q[1] <= Max2(H[1][1], H[2][1])
+                    /\ Min2(H[1][2], H[2][2]) <= q[2] /\ q[2] <= Max2(H[1][2], H[2][2])
+    \/ Len(H) >= 3 /\ ((\A i \in DOMAIN H : SCross3(H[i], H[NextIdx(H, i)], q) >= 0)
+                       \/ (\A j \in DOMAIN H : SCross3(H[j], H[NextIdx(H, j)], q) <= 0))
 HullOK(H, S) == /\ \A q \in S : OnOrInsideConvex(H, q)
                 /\ SeqSet(H) \subseteq S
 \* ---- reduced rational matrices (keeps cross-multiplications inside 31 bits) -------------------
